@@ -268,6 +268,9 @@ func gen(r *sim.Rng, tier string) *sim.Case {
 		p["slen"] = base - 48 + r.N(65)
 	}
 	p["variant"] = r.N(8) // bit0: plaintext as string, bit1: secret as string, bit2: aad as string
+	if r.Pct(12) {
+		p["named"] = 1 // the caller's own named string and []byte types
+	}
 	p["emode"] = r.Pick(6, 1, 1)
 	p["echunk"] = []int{0, 0, 1, 3, 7}[r.N(5)]
 	p["rpol"] = r.N(17)
@@ -353,6 +356,12 @@ func setEntropy(p map[string]int) {
 // the generic entry points, instantiated for string and []byte as the variant says
 func (w *world) encrypt() ([]byte, error) {
 	v := w.c.P("variant")
+	if w.c.P("named") == 1 {
+		if v&1 == 0 {
+			return cryptz.Encrypt(nBytes(w.plain), nString(w.secret))
+		}
+		return cryptz.Encrypt(nString(w.plain), nBytes(w.secret))
+	}
 	switch v & 3 {
 	case 0:
 		return cryptz.Encrypt(w.plain, w.secret)
@@ -364,8 +373,21 @@ func (w *world) encrypt() ([]byte, error) {
 	return cryptz.Encrypt(string(w.plain), string(w.secret))
 }
 
+// Named types: the functions are generic over ~string | ~[]byte, and callers do pass their own
+// types (a Password, a KeyFile, a Document).
+type (
+	nString string
+	nBytes  []byte
+)
+
 func (w *world) decrypt(ct []byte) ([]byte, error) {
 	v := w.c.P("variant")
+	if w.c.P("named") == 1 {
+		if v&1 == 0 {
+			return cryptz.Decrypt(nBytes(append([]byte{}, ct...)), nString(w.secret))
+		}
+		return cryptz.Decrypt(nString(ct), nBytes(w.secret))
+	}
 	switch v & 3 {
 	case 0:
 		return cryptz.Decrypt(append([]byte{}, ct...), w.secret)
@@ -379,6 +401,12 @@ func (w *world) decrypt(ct []byte) ([]byte, error) {
 
 func (w *world) gcmEncrypt() ([]byte, error) {
 	v := w.c.P("variant")
+	if w.c.P("named") == 1 {
+		if v&1 == 0 {
+			return cryptz.GCMEncrypt(nBytes(w.plain), nString(w.secret), nBytes(w.aad))
+		}
+		return cryptz.GCMEncrypt(nString(w.plain), nBytes(w.secret), nString(w.aad))
+	}
 	switch v {
 	case 0:
 		return cryptz.GCMEncrypt(w.plain, w.secret, w.aad)
@@ -400,6 +428,12 @@ func (w *world) gcmEncrypt() ([]byte, error) {
 
 func (w *world) gcmDecrypt(ct, secret, aad []byte) ([]byte, error) {
 	v := w.c.P("variant")
+	if w.c.P("named") == 1 {
+		if v&1 == 0 {
+			return cryptz.GCMDecrypt(nBytes(append([]byte{}, ct...)), nString(secret), nBytes(aad))
+		}
+		return cryptz.GCMDecrypt(nString(ct), nBytes(secret), nString(aad))
+	}
 	switch v & 6 {
 	case 0:
 		return cryptz.GCMDecrypt(append([]byte{}, ct...), secret, aad)
@@ -412,6 +446,12 @@ func (w *world) gcmDecrypt(ct, secret, aad []byte) ([]byte, error) {
 }
 
 func (w *world) encStream(out io.Writer, in io.Reader) error {
+	if w.c.P("named") == 1 {
+		if w.c.P("variant")&1 == 0 {
+			return cryptz.EncryptStreamTo(out, in, nString(w.secret))
+		}
+		return cryptz.EncryptStreamTo(out, in, nBytes(w.secret))
+	}
 	if w.c.P("variant")&2 != 0 {
 		return cryptz.EncryptStreamTo(out, in, string(w.secret))
 	}
@@ -419,6 +459,12 @@ func (w *world) encStream(out io.Writer, in io.Reader) error {
 }
 
 func (w *world) decStream(out io.Writer, in io.Reader) error {
+	if w.c.P("named") == 1 {
+		if w.c.P("variant")&1 == 0 {
+			return cryptz.DecryptStreamTo(out, in, nString(w.secret))
+		}
+		return cryptz.DecryptStreamTo(out, in, nBytes(w.secret))
+	}
 	if w.c.P("variant")&2 != 0 {
 		return cryptz.DecryptStreamTo(out, in, string(w.secret))
 	}
